@@ -48,11 +48,11 @@ MANIFEST_TEXT = {
 
 CHECKS.update({
     "C02": {
-        "variants": ["asan-ts", "asan-nots"], "level": "exploration", "claims_sanitizer": True,
+        "variants": ["asan-ts", "asan-nots", "vg-ts"], "variant_share": {"asan-ts": 1.0, "asan-nots": 1.0, "vg-ts": 0.08}, "level": "exploration", "claims_sanitizer": True,
         "quick": T(50000, 60), "thorough": T(2000000, 900),
-        "rule": "one run = generated world + config bytes (structured generator, byte-level mutation of it, or boundary-directed: tag lengths 95..900, message = limit-1/0/+1, output ':' forms, short syslog names, huge numbers, ident/path near their limits, 1 MiB limits, lines around 1024 bytes) + 1-2 wrapped execs under ASan+UBSan; "
+        "rule": "one run = generated world + config bytes (structured generator, byte-level mutation of it, or boundary-directed: tag lengths 95..900, message = limit-1/0/+1, output ':' forms, short syslog names, huge numbers, ident/path near their limits, 1 MiB limits, lines around 1024 bytes) + 1-2 wrapped execs under ASan+UBSan in both builds, and an 8 % share of the seeds once more with the uninstrumented library under valgrind memcheck (uninitialised values, which ASan does not see); "
                 "oracle = sanitizer report, fatal signal, step cap / watchdog, exec not reached; non-trivial = non-empty config; distinct = (options present, tag-count bucket, boundary probe, env/tty class, size bucket)",
-        "probes": ["tag_ge_100", "msg_eq_limit", "environ_null", "limit_1mib", "line_ge_1024", "output_colon", "short_syslog_name", "huge_number", "ident_near_256", "path_near_max", "errlog_at_limit"],
+        "probes": ["tag_ge_100", "msg_eq_limit", "environ_null", "limit_1mib", "line_ge_1024", "output_colon", "short_syslog_name", "huge_number", "ident_near_256", "path_near_max", "errlog_at_limit", "login_at_buffer_size"],
         "assumptions": ["no schedule or fault dimension: seeded generation against a sanitizer oracle inside the simulated OS (weak fit, DESIGN 3/C02)"],
     },
     "C05": {
